@@ -24,13 +24,16 @@ PROPERTIES = {
     },
     "C06": {
         "contracts": [axes.AxisUnion, axes.AxisIntersection, axes.CommonAxis, align.GetAlignedAxes, align.Align,
-                      (align.ReindexAxis, r"method_None"), dataset.AlignDataset, axes.UnionLabelPrecision],
+                      (align.ReindexAxis, r"method_None"), dataset.AlignDataset, axes.UnionLabelPrecision, axes.CommonDirectionNative,
+                      # Axis.union chooses between the sorted merge and plain concatenation from the CACHED monotonicity of its
+                      # operands: the coherence of that cache (C05's AxisCache) is something the union contracts rest on
+                      wellformed.AxisCache],
         "level": "other",
         "min_obligations": 2000,
         "explanation": "proved: direction / uniqueness / order of Axis.union and intersection, frame and sort of _get_aligned_axes (real bodies, exact identity), align's composition over the callee contracts (labels, data, NaN fill, dims, forwarding, inputs untouched), reindex_axis. bounded stand-in (exhaustive, lengths <= 3): the set-inclusion clauses of union / intersection / _common_axis, on which the 'set union / intersection' sentence of the property rests.",
     },
     "C11": {
-        "contracts": [regroup.Flatten, regroup.Unflatten, regroup.FlattenUnflatten, regroup.Reshape, transform.ReduceTuple, regroup.MultiAxisLabels],
+        "contracts": [regroup.Flatten, regroup.Unflatten, regroup.FlattenUnflatten, regroup.Reshape, transform.ReduceTuple, regroup.MultiAxisLabels, regroup.UnflattenSeveralGroups],
         "level": "proof",
         "min_obligations": 2000,
     },
@@ -77,18 +80,18 @@ PROPERTIES = {
         "min_obligations": 1000,
     },
     "C08": {
-        "contracts": [transform.Reduce, transform.ReduceTuple, transform.Percentile, transform.ReduceNativeOnly, transform.ReduceInfNative],
+        "contracts": [transform.Reduce, transform.ReduceTuple, transform.Percentile, transform.ReduceNativeOnly, transform.ReduceInfNative, reshape.AxisSpellingNative],
         "level": "other",
         "min_obligations": 400,
         "explanation": "proved (relative to NumPy's own reductions, uninterpreted): which function is applied to which values along which axis, the remaining axes, metadata, scalar results, tuple axes as one flatten + reduction; bounded stand-in: median (both skipna settings) and ptp / all / any with skipna=True, whose implementation branches on the data and goes through numpy.ma.",
     },
     "C09": {
-        "contracts": [transform.Cumulative, transform.ArgExtremum, transform.ArgExtremumWhole, transform.Diff, transform.DiffNative],
+        "contracts": [transform.Cumulative, transform.ArgExtremum, transform.ArgExtremumWhole, transform.Diff, transform.DiffNative, reshape.AxisSpellingNative],
         "level": "proof",
         "min_obligations": 600,
     },
     "C10": {
-        "contracts": [reshape.Transpose, reshape.SwapAxes, reshape.RollAxis, reshape.NewAxis, reshape.Squeeze, reshape.Repeat, reshape.Broadcast, reshape.BroadcastArrays],
+        "contracts": [reshape.Transpose, reshape.SwapAxes, reshape.RollAxis, reshape.NewAxis, reshape.Squeeze, reshape.Repeat, reshape.Broadcast, reshape.BroadcastArrays, reshape.AxisSpellingNative],
         "level": "proof",
         "min_obligations": 1200,
     },
@@ -124,7 +127,7 @@ PROPERTIES = {
         "assumptions": ["parametricity of the routing code in the attribute name: it is only compared for equality with finitely many known strings (class members, exclude / include lists, dimension names, attrs keys) and tested for a leading underscore"],
     },
     "C07": {
-        "contracts": [indexing.LocateMany, align.TakeAxis, align.ReindexAxis, align.ReindexLike, (indexing.MaybeCastType, r"^[if]<-")],
+        "contracts": [indexing.LocateMany, align.TakeAxis, align.ReindexAxis, align.ReindexLike, (indexing.MaybeCastType, r"^[if]<-"), align.ReindexFillPrecision],
         "level": "proof",
         "min_obligations": 500,
     },
